@@ -185,3 +185,33 @@ Example C07_example_subject :
   = Ok [[1;9;7]; [4;9;8]; [2;9;8]; [3;9;7]]%N /\
   (exists c, hierarchy_map [[1;2]; [2;1]]%N = Err c).
 Proof. vm_compute. repeat split; eauto. Qed.
+
+(* ---------------- filtered and incremental filtered loading (core_enforcer.py load_filtered_policy /
+   load_increment_filtered_policy, repaired by /repo 8566c11: both run the ordering steps of load_policy) --------- *)
+(* the rules a filtered load brings in are stored like a full load's (same theorem, on the kept subset); an
+   incremental load appends the new subset to what is stored and orders the whole: *)
+Definition load_increment (pi : nat) (stored loaded : store) : store := sort_rules pi (stored ++ loaded).
+
+Theorem C07_incremental_load_keeps_order : forall pi stored loaded,
+  NoDup (stored ++ loaded) -> all_keys pi stored -> all_keys pi loaded -> PI pi (load_increment pi stored loaded).
+Proof.
+  intros pi stored loaded Hnd Hs Hl. apply load_establishes_order; [exact Hnd|].
+  unfold all_keys in *. apply Forall_app. split; assumption.
+Qed.
+Print Assumptions C07_incremental_load_keeps_order.
+
+(* ... and within every priority the rules stored before keep their order and stand before the newly loaded ones *)
+Theorem C07_incremental_load_is_stable : forall pi stored loaded k,
+  all_keys pi stored -> all_keys pi loaded ->
+  filter (fun x => N.eqb (key pi x) k) (load_increment pi stored loaded)
+  = filter (fun x => N.eqb (key pi x) k) stored ++ filter (fun x => N.eqb (key pi x) k) loaded.
+Proof.
+  intros pi stored loaded k Hs Hl. unfold load_increment.
+  assert (Hall : all_keys pi (stored ++ loaded)) by (unfold all_keys in *; apply Forall_app; split; assumption).
+  destruct (sort_rules_spec pi (stored ++ loaded) Hall) as [_ [_ [_ H]]]. rewrite H. apply filter_app.
+Qed.
+Print Assumptions C07_incremental_load_is_stable.
+
+Example C07_example_incremental :
+  load_increment 0 [[1;13]; [5;10]]%N [[2;11]; [1;14]; [10;15]]%N = [[1;13]; [1;14]; [2;11]; [5;10]; [10;15]]%N.
+Proof. vm_compute. reflexivity. Qed.
